@@ -310,7 +310,8 @@ def handle : List String → String
     | _, _ => "bad-op"
   | "timehist" :: t :: _zone :: items =>
     -- items are <u or ->:<frame hex>; the true instants are for the harness's oracle only
-    match t.toInt?, parseHexes (items.map (fun k => ((k.splitOn ":").getD 1 "x"))) with
+    -- the start time may carry its sub-millisecond part as `<ms>+<ns>`: the model counts whole ms
+    match ((t.splitOn "+").headD t).toInt?, parseHexes (items.map (fun k => ((k.splitOn ":").getD 1 "x"))) with
     | some T, some bs => " | ".intercalate (getHist (newState T) bs)
     | _, _ => "bad-op"
   | ["stream", t, h] =>
